@@ -200,7 +200,7 @@ PROPS = {
                  "oracle with the same tolerance. non-trivial = queries with a non-empty, non-total answer"),
         "trusted_base": COMMON_TB + ["the harness's float oracle (spherical haversine, planar convex-polygon test)", "s2 geometry library"],
         "assumptions": ["points within the margin of a boundary are not judged", LEVEL_NOTE],
-        "floors": {"interleave": 1000, "plain/distance": 20, "s2/box": 20, "plain/polygon": 15},
+        "floors": {"interleave": 1000, "plain/distance": 20, "s2/box": 20, "plain/polygon": 15, "s2/polygon-planted-open": 15, "plain/polygon-planted-open": 15},
         "thorough_shards": 8,
     },
     "C19": {
